@@ -162,11 +162,23 @@ def close(a, b, tol=1e-6):
         return a == b
     a = float(a)
     b = float(b)
+    if a != a and b != b:
+        return True          # NaN on both sides: the same (non-)value
     if a != a or b != b:
         return False
     if math.isinf(a) or math.isinf(b):
         return a == b
     return abs(a - b) <= tol * max(1.0, abs(a), abs(b))
+
+
+def same_bits(a, b):
+    if isinstance(a, bool) or isinstance(b, bool) or (isinstance(a, int) and isinstance(b, int)):
+        return a == b
+    a = float(a)
+    b = float(b)
+    if a != a and b != b:
+        return True
+    return struct.pack('<d', a) == struct.pack('<d', b)
 
 
 # ------------------------------------------------------------------ harness discovery
@@ -513,6 +525,8 @@ class Check:
             return False
 
     def replay_model(s, h, ob, vec, order=None):
+        if s.opts(h).get('exact_replay'):
+            return s.replay_model0(h, ob, vec, strict='bits')
         r = s.replay_model0(h, ob, vec, strict=False)
         if not r[0] and order is not None and r[1].startswith('native lhs=') and s.exact_run_fails(h, ob, vec, order):
             r2 = s.replay_model0(h, ob, vec, strict=True)
@@ -546,6 +560,8 @@ class Check:
                     if e[0] == 'ASSERT':
                         return (not e[2]), 'native assert %s' % e[2]
                     a, b = e[2][ob['leaf']], e[3][ob['leaf']]
+                    if strict == 'bits':
+                        return (not same_bits(a, b)), 'native lhs=%r rhs=%r (bit-exact comparison)' % (a, b)
                     if strict:
                         same = (a == b) or (isinstance(a, float) and isinstance(b, float) and abs(a - b) <= 1e-9 * max(abs(a), abs(b)))
                         return (not same), 'native lhs=%r rhs=%r' % (a, b)
@@ -558,6 +574,13 @@ class Check:
         for m in s.bounded_models(ob, o, order):
             yield m
         yield first_model
+        if o.get('exact_replay'):
+            # operations are uninterpreted in this mode, so the solver's model says nothing about rounding: also try
+            # inputs whose quotients and products are inexact
+            rng = random.Random(12345)
+            pool = [5.0, 7.0, 49.0, 0.1, 3.0, -2.5, 1.0 / 3.0, 10.0, 0.7, -13.0, 1e-3, 123.456]
+            for _ in range(24):
+                yield {nm: (Fraction(rng.choice(pool)) if lt in mir.FLOATS else (rng.random() < 0.5 if lt == 'bool' else rng.randint(1, 9))) for nm, lt in order}
 
     def bounded_models(s, ob, o, order):
         names = [nm for nm, lt in order if lt in mir.FLOATS]
@@ -699,7 +722,8 @@ class Check:
         fn = os.path.join(d, '%s-%s-%s-%d.json' % (s.prop, base, re.sub(r'[^\w]', '_', ob['id']), ob['leaf']))
         json.dump({'property': s.prop, 'harness': base, 'assert': ob['id'], 'leaf': ob['leaf'], 'kind': ob['kind'],
                    'inputs': [{'name': nm, 'type': lt, 'value': v, 'token': leaf_tok(v)} for (nm, lt), v in zip(order, vec)],
-                   'native': why, 'criterion': 'strict-relative' if 'tiny residual' in why else 'default', 'replay_cmd': './check %s --replay %s' % (s.prop, fn)}, open(fn, 'w'), indent=1)
+                   'native': why, 'criterion': 'strict-relative' if 'tiny residual' in why else ('bits' if 'bit-exact' in why else 'default'),
+                   'tol': s.opts(h).get('vector_tol', 1e-6) if 'curated' in why else 1e-6, 'replay_cmd': './check %s --replay %s' % (s.prop, fn)}, open(fn, 'w'), indent=1)
         return fn
 
     # ---------------- differential validation of the executor
@@ -733,6 +757,31 @@ class Check:
                 if e[0] == 'COVER':
                     covered.add(e[1])
             ok += 1
+            # curated boundary vectors (props.py 'vectors') also act as concrete tests of the assertions themselves: a net
+            # under the solver for tolerance-edge inputs where sat-finding is hard.  Random vectors are NOT judged this way.
+            if vec in [list(x) for x in o.get('vectors', [])]:
+                assumed = all((e[0] != 'ASSUME' or e[1]) and (e[0] != 'ASSUMEEQ' or all(close(a, b, 1e-9) for a, b in zip(e[1], e[2]))) for e in nat)
+                seen = {}
+                for e in nat:
+                    if e[0] == 'PANIC':
+                        break
+                    if e[0] in ('ASSERT', 'ASSERTEQ'):
+                        k = seen.get(e[1], 0)
+                        seen[e[1]] = k + 1
+                        bad = (not e[2]) if e[0] == 'ASSERT' else None
+                        if e[0] == 'ASSERTEQ':
+                            for li, (a, b) in enumerate(zip(e[2], e[3])):
+                                if not close(a, b, o.get('vector_tol', 1e-6)):
+                                    bad = li
+                                    break
+                        if assumed and bad is not None and bad is not False:
+                            ob = {'id': '%s#%d' % (e[1], k), 'leaf': 0 if bad is True else bad, 'kind': 'bool' if e[0] == 'ASSERT' else 'eq'}
+                            why = 'curated boundary input %r fails the assertion natively' % (vec,)
+                            rp = s.write_replay(h, ob, vec, why, order)
+                            s.violations.append({'harness': h.split('::')[-1], 'id': ob['id'], 'leaf': ob['leaf'], 'replay': rp, 'why': why,
+                                                 'key': (s.prop, h.split('::')[-1], e[1])})
+                            log('  %s: CONCRETE COUNTEREXAMPLE %s (%s)' % (h.split('::')[-1], ob['id'], why[:120]))
+                            break
         s.stats['validated'] += ok
         return covered
 
@@ -963,8 +1012,10 @@ def replay_file(prop, path):
                         x, y = e[2][d['leaf']], e[3][d['leaf']]
                         if d.get('criterion') == 'strict-relative':
                             failed = not ((x == y) or (isinstance(x, float) and isinstance(y, float) and abs(x - y) <= 1e-9 * max(abs(x), abs(y))))
+                        elif d.get('criterion') == 'bits':
+                            failed = not same_bits(x, y)
                         else:
-                            failed = not close(x, y)
+                            failed = not close(x, y, d.get('tol', 1e-6))
             if e[0] == 'PANIC' and d['kind'] == 'nopanic':
                 failed = True
         print('    => assertion %s leaf %d %s' % (d['assert'], d['leaf'], 'FAILS (violation reproduces)' if failed else 'holds'))
